@@ -19,3 +19,56 @@ def run(ctx, which):
     ctx.rule = ("each scenario (object, length, mode, size announcement, lost segment / block size and acknowledge plan) is one deterministic dialogue of a conforming client "
                 "against the reference server; TLC checks the property on the dialogue in the model and prints it with the predicted responses; all are replayed on the C code")
     ctx.replay(behs, common.wrap(sdo_common.make_preamble(objs)), sdo_common.observe, ordered=True, label="scen_n1")
+    # C02 clause "a transfer on one server is unaffected by traffic on another": the same dialogues, two at a
+    # time on different objects, interleaved frame by frame on the two servers of a CO_SSDO_N = 2 build
+    pairs = interleave(behs, ctx.seed, 60 if q else 600)
+    ctx.assumptions.append("independence of servers: pairs of dialogues on different objects are interleaved frame by frame on server 0 (600h+id) and server 1 (610h/590h) of a CO_SSDO_N = 2 build; every prediction must still hold")
+    ctx.replay(pairs, common.wrap(sdo_common.make_preamble(objs, nsrv=2)), sdo_common.observe, variant="n2", defines=("CO_SSDO_N=2",), ordered=True, label="scen_two_servers")
+
+
+def interleave(behs, seed, n):
+    import random, copy
+    from vlib import Beh
+    rnd = random.Random(seed + 3)
+    small = [b for b in behs if len(b.steps) <= 80]
+    out = []
+
+    def touched(b):
+        t = set()
+        for st in b.steps:
+            if st["e"][0] == "dump":
+                t.add((st["e"][1], st["e"][2]))
+            for it in st["x"]:
+                if it and it[0] in ("chg?", "chg", "obj"):
+                    t.add((it[1], it[2]))
+            e = st["e"]
+            if e[0] == "rx" and len(e) >= 7:
+                c = e[3]
+                if c == 0x40 or (c & 0xF0) == 0x20 or (c & 0xF9) == 0xC0 or (c & 0xE3) == 0xA0:      # initiate requests name an object
+                    t.add((e[4] | (e[5] << 8), e[6]))
+        return t
+
+    def on_server1(st):
+        st = copy.deepcopy(st)
+        if st["e"][0] == "rx" and st["e"][1] == 1537:
+            st["e"][1] = 0x610
+        for it in st["x"]:
+            if it and it[0] == "tx" and it[1] == 1409:
+                it[1] = 0x590
+        return st
+
+    tries = 0
+    while len(out) < n and tries < 20 * n and len(small) > 1:
+        tries += 1
+        a, b = rnd.sample(small, 2)
+        if touched(a) & touched(b):
+            continue
+        sa, sb = list(a.steps), [on_server1(x) for x in b.steps]
+        steps = []
+        while sa or sb:
+            if sa and (not sb or rnd.random() < 0.5):
+                steps.append(sa.pop(0))
+            else:
+                steps.append(sb.pop(0))
+        out.append(Beh(a.cfg, steps, 0, "pair"))
+    return out
